@@ -59,6 +59,9 @@ Wrapper(k, p, scr, cur) ==
     [] Bug = "clamp" ->            \* yields b + 1 for the largest raw value
          LET r == WrapperDraw(ModelStd, k, p, scr, cur)
          IN IF ~r.ex /\ scr[r.cursor] = R THEN [r EXCEPT !.val = Decorate(k, Base(k, p.b) + 1)] ELSE r
+    [] Bug = "rewind" ->           \* gives a raw value back to the engine
+         LET r == WrapperDraw(ModelStd, k, p, scr, cur)
+         IN IF ~r.ex /\ cur > 0 THEN [r EXCEPT !.cursor = cur - 1] ELSE r
     [] OTHER -> WrapperDraw(ModelStd, k, p, scr, cur)
 
 Indices(size) ==
